@@ -95,6 +95,26 @@ STR_CONSTS = [
     ("senpaiDefSwapThreshold", "src/oomd/plugins/Senpai.h", r"swap_threshold_\{([0-9.]+)\}"),
     # C08: default of pressure_rising_beyond's fast_fall_ratio (member initialiser)
     ("detectRisingDefFastFallRatio", "src/oomd/plugins/PressureRisingBeyond.h", r"fast_fall_ratio_\{([0-9.]+)\}"),
+    # C15: control files read by CgroupContext (Fs.h), moving-average decay (OomdContext.h, decimal text)
+    ("fsMemCurrent", "src/oomd/util/Fs.h", r'kMemCurrentFile\s*=\s*"([^"]*)"'),
+    ("fsMemLow", "src/oomd/util/Fs.h", r'kMemLowFile\s*=\s*"([^"]*)"'),
+    ("fsMemMin", "src/oomd/util/Fs.h", r'kMemMinFile\s*=\s*"([^"]*)"'),
+    ("fsMemHigh", "src/oomd/util/Fs.h", r'kMemHighFile\s*=\s*"([^"]*)"'),
+    ("fsMemHighTmp", "src/oomd/util/Fs.h", r'kMemHighTmpFile\s*=\s*"([^"]*)"'),
+    ("fsMemMax", "src/oomd/util/Fs.h", r'kMemMaxFile\s*=\s*"([^"]*)"'),
+    ("fsMemStat", "src/oomd/util/Fs.h", r'kMemStatFile\s*=\s*"([^"]*)"'),
+    ("fsMemPressure", "src/oomd/util/Fs.h", r'kMemPressureFile\s*=\s*"([^"]*)"'),
+    ("fsIoPressure", "src/oomd/util/Fs.h", r'kIoPressureFile\s*=\s*"([^"]*)"'),
+    ("fsIoStat", "src/oomd/util/Fs.h", r'kIoStatFile\s*=\s*"([^"]*)"'),
+    ("fsSwapCurrent", "src/oomd/util/Fs.h", r'kMemSwapCurrentFile\s*=\s*"([^"]*)"'),
+    ("fsSwapMax", "src/oomd/util/Fs.h", r'kMemSwapMaxFile\s*=\s*"([^"]*)"'),
+    ("fsEvents", "src/oomd/util/Fs.h", r'kEventsFile\s*=\s*"([^"]*)"'),
+    ("fsCgroupStat", "src/oomd/util/Fs.h", r'kCgroupStatFile\s*=\s*"([^"]*)"'),
+    ("fsOomGroup", "src/oomd/util/Fs.h", r'kMemOomGroupFile\s*=\s*"([^"]*)"'),
+    ("fsControllers", "src/oomd/util/Fs.h", r'kControllersFile\s*=\s*"([^"]*)"'),
+    ("ctxAverageSizeDecay", "src/oomd/OomdContext.h", r"average_size_decay\{([0-9.]+)\}"),
+    # C11: the plugin argument a per-cgroup action copy gets by default (registerRunnableRulesetForCgroupPath)
+    ("rulesetCgroupArgName", "src/oomd/engine/Ruleset.cpp", r'"([^"\n]*)"[^;"\n]*cgroup\.relativePath\(\)'),
 ]
 
 # free-form expressions evaluated by python (e.g. `1024 * 1024`)
@@ -274,9 +294,20 @@ def typed_arg_schemas(repo):
     base_kill = strip_comments(read(repo, "src/oomd/plugins/BaseKillPlugin.cpp"))
     base_kill_h = strip_comments(read(repo, "src/oomd/plugins/BaseKillPlugin.h"))
     hook_h = strip_comments(read(repo, "src/oomd/engine/PrekillHook.h"))
+    # only plugins whose registering translation unit is part of the build are in the registry
+    # (KernelPanic.cpp, for one, is not listed in meson.build)
+    built = set(re.findall(r"(src/oomd/[\w/.-]+\.cpp)", read(repo, "meson.build")))
     items = []
     for name, d in sorted(sch.items()):
         base = re.sub(r"<.*", "", d["class"]).split("::")[-1]
+        reg_unit = None
+        for root, _, fs in os.walk(pdir):
+            for f in sorted(fs):
+                if f.endswith(".cpp") and re.search(r"REGISTER_(PLUGIN|PREKILL_HOOK)\(\s*" + re.escape(name) + r"\s*,",
+                                                      strip_comments(open(os.path.join(root, f)).read())):
+                    reg_unit = os.path.relpath(os.path.join(root, f), repo)
+        if built and reg_unit not in built:
+            continue
         srcs = []
         for root, _, fs in os.walk(pdir):
             for f in sorted(fs):
